@@ -70,6 +70,12 @@ def _impl(tier, seed, search):
             if dist_to_line(far, P, d) > 1e-3 * sc:
                 ok3, c = L.noraise('contains-far', lambda: l.contains(far, tol=tolc), inp, 'contains(far point)')
                 if ok3: L.check('contains:rejects-far-point', not bool(c), dict(inp, x=far), 'contains() is True for a point far from the line')
+            # the 3xN form of contains(): one answer per column, the same as the single-point form
+            Xm = np.stack([P, Q, far, P + 0.5 * (Q - P)], axis=1)
+            ok3, c = L.noraise('contains(3xN)', lambda: (np.ravel(np.asarray(l.contains(Xm, tol=tolc))), [bool(l.contains(Xm[:, k_], tol=tolc)) for k_ in range(4)]), inp, 'contains(3xN array)')
+            if ok3 and dist_to_line(far, P, d) > 1e-3 * sc:
+                L.check('contains(3xN)', len(c[0]) == 4 and [bool(v_) for v_ in c[0]] == c[1] and c[1] == [True, True, False, True], dict(inp, X=Xm),
+                        'contains() on a 3xN array disagrees with the single-point form / with the geometry', observed=[list(map(bool, c[0])), c[1]], sig='contains:3xN')
             x = pt(g)
             ok3, c = L.noraise('closest', lambda: l.closest(x), dict(inp, x=x), 'closest(x)')
             if ok3:
